@@ -89,6 +89,23 @@ hx_arg_str(json_t *args, const char *key)
     return json_string_value(json_object_get(args, key));
 }
 
+/* sum of the reference counts of every node of a JSON value (jansson keeps it in json_t.refcount) */
+size_t
+hx_refsum(json_t *j)
+{
+    size_t n = j ? j->refcount : 0;
+    const char *k;
+    json_t *v;
+    size_t i;
+    if (json_is_object(j))
+        json_object_foreach(j, k, v)
+            n += hx_refsum(v);
+    else if (json_is_array(j))
+        json_array_foreach(j, i, v)
+            n += hx_refsum(v);
+    return n;
+}
+
 static const op_t *const tables[] = {
     ops_tables, ops_b64, ops_io, ops_jwk, ops_misc, ops_jws, ops_jwe, ops_api, NULL
 };
@@ -135,17 +152,39 @@ main(int argc, char *argv[])
             fflush(stdout);
             continue;
         }
-        res = fn(args);
-        if (!res)
-            res = json_pack("{s:s}", "error", "op-returned-null");
         {
-            char *txt = json_dumps(res, JSON_COMPACT | JSON_SORT_KEYS | JSON_ENCODE_ANY);
+            /* C17 / C09: no operation may change the JSON values it is handed (mutating operations
+             * work on copies made by the op itself), and once the result has been released the
+             * reference counts of all argument nodes must be what they were */
+            json_t *before = json_deep_copy(args);
+            size_t rc_before = hx_refsum(args);
+            char *txt;
+            bool mutated, refs;
+            res = fn(args);
+            if (!res)
+                res = json_pack("{s:s}", "error", "op-returned-null");
+            txt = json_dumps(res, JSON_COMPACT | JSON_SORT_KEYS | JSON_ENCODE_ANY);
+            json_decref(res);
+            mutated = !json_equal(before, args);
+            refs = hx_refsum(args) != rc_before;
+            json_decref(before);
+            if ((mutated || refs) && txt) {
+                json_t *again = json_loads(txt, JSON_ALLOW_NUL | JSON_DECODE_ANY, NULL);
+                if (json_is_object(again)) {
+                    if (mutated)
+                        json_object_set_new(again, "args_mutated", json_true());
+                    if (refs)
+                        json_object_set_new(again, "refs_changed", json_true());
+                    free(txt);
+                    txt = json_dumps(again, JSON_COMPACT | JSON_SORT_KEYS | JSON_ENCODE_ANY);
+                }
+                json_decref(again);
+            }
             fputs(txt ? txt : "{\"error\":\"undumpable\"}", stdout);
             fputc('\n', stdout);
             fflush(stdout);
             free(txt);
         }
-        json_decref(res);
         json_decref(args);
     }
     free(line);
